@@ -54,12 +54,14 @@ Theorem C01_window : forall c s, reachable c s -> forall p,
   (rTip (get s p) = None -> nsig (outq s p) = 0%nat /\ lTip (get s (negb p)) = None).
 Proof. exact reach_window. Qed.
 
-(* T6: the cuts used by SignNextCommitment and ReceiveNewCommitment are well
-   formed in every reachable state ... *)
+(* T6: in every reachable state the cut p would use in SignNextCommitment is
+   well formed, and so is the cut used by ReceiveNewCommitment whenever a
+   signature heads the queue towards p ... *)
 Theorem C01_wf_reachable : forall c s, reachable c s -> forall p,
   let x := get s p in
   commit_wf (logA_of p x) (logB_of p x) (fst (sign_cut p x)) (snd (sign_cut p x)) = true /\
-  commit_wf (logA_of p x) (logB_of p x) (fst (recv_cut p x)) (snd (recv_cut p x)) = true.
+  (forall k q, outq s (negb p) = MSig k :: q ->
+   commit_wf (logA_of p x) (logB_of p x) (fst (recv_cut p x)) (snd (recv_cut p x)) = true).
 Proof. exact reach_wf. Qed.
 
 (* ... so commit_of refuses a well-formed cut only for money reasons ... *)
